@@ -516,77 +516,117 @@ end Orig
 
 /-! ## 6. integer soft-float (binary32 on bit patterns held in `Nat`), kernel-reducible -/
 namespace Soft
+/-! Written in a deliberately primitive style — `bif` on `Nat.ble/Nat.blt/Nat.beq`, `Nat.*` functions
+applied directly — because the kernel evaluates these on GMP numbers in a few reduction steps,
+whereas `if a ≤ b`/`==` go through `Decidable` instances (measured ≈ 10× slower under
+`decide +kernel`).  Compiled natively it is the same code. -/
 
-def expo (b : Nat) : Nat := b / 2^23 % 256
-def frac (b : Nat) : Nat := b % 2^23
-def sgn (b : Nat) : Bool := b / 2^31 % 2 == 1
-def mag (b : Nat) : Nat := b % 2^31
-def isNaN (b : Nat) : Bool := expo b == 255 && frac b != 0
-def isInf (b : Nat) : Bool := expo b == 255 && frac b == 0
+def expo (b : Nat) : Nat := Nat.mod (Nat.shiftRight b 23) 256
+def frac (b : Nat) : Nat := Nat.mod b 8388608
+def sgn (b : Nat) : Bool := Nat.beq (Nat.mod (Nat.shiftRight b 31) 2) 1
+def mag (b : Nat) : Nat := Nat.mod b 2147483648
+def isNaN (b : Nat) : Bool := Nat.blt 2139095040 (mag b)      -- mag > 0x7f800000
+def isInf (b : Nat) : Bool := Nat.beq (mag b) 2139095040
 /-- a finite pattern denotes `(-1)^sgn * sig * 2^(qexp - 149)` -/
-def sig (b : Nat) : Nat := if expo b == 0 then frac b else 2^23 + frac b
-def qexp (b : Nat) : Nat := if expo b == 0 then 0 else expo b - 1
-def withSign (s : Bool) (m : Nat) : Nat := if s then 2^31 + m else m
+def sig (b : Nat) : Nat := bif Nat.beq (expo b) 0 then frac b else Nat.add 8388608 (frac b)
+def qexp (b : Nat) : Nat := bif Nat.beq (expo b) 0 then 0 else Nat.sub (expo b) 1
+def withSign (s : Bool) (m : Nat) : Nat := bif s then Nat.add 2147483648 m else m
 def qNaN : Nat := 0x7fc00000
 
 /-- `m / 2^sh` rounded to nearest, ties to even -/
 def rne (m sh : Nat) : Nat :=
-  if sh == 0 then m else
-  let q := m >>> sh
-  let r := m % 2^sh
-  let h := 2^(sh - 1)
-  if r > h || (r == h && q % 2 == 1) then q + 1 else q
+  bif Nat.beq sh 0 then m else
+  let q := Nat.shiftRight m sh
+  let r := Nat.mod m (Nat.pow 2 sh)
+  let h := Nat.pow 2 (Nat.sub sh 1)
+  bif Nat.blt h r || (Nat.beq r h && Nat.beq (Nat.mod q 2) 1) then Nat.add q 1 else q
 
-/-- magnitude bits of the binary32 nearest (ties to even) to `m * 2^e`; overflow to infinity -/
-def roundPack (m : Nat) (e : Int) : Nat :=
-  if m == 0 then 0 else
-  let E : Int := (m.log2 : Int) + e              -- m*2^e ∈ [2^E, 2^(E+1))
-  let q : Int := if E - 23 < -149 then -149 else E - 23   -- exponent of the result's unit
-  let n : Nat := if q ≤ e then m * 2^(e - q).toNat else rne m (q - e).toNat
-  let b : Nat := (q + 149).toNat * 2^23 + n      -- (be-1)·2^23 + (2^23 + frac); carries propagate
-  if b ≥ 0x7f800000 then 0x7f800000 else b
+/-- `⌊log2 m⌋` for `0 < m < 2^256` by binary search (comparisons and shifts only; `Nat.log2` is
+defined by well-founded recursion, which the kernel does not evaluate efficiently) -/
+def ilog2 (m : Nat) : Nat :=
+  let r7 := bif Nat.ble 340282366920938463463374607431768211456 m then 128 else 0
+  let m := Nat.shiftRight m r7
+  let r6 := bif Nat.ble 18446744073709551616 m then 64 else 0
+  let m := Nat.shiftRight m r6
+  let r5 := bif Nat.ble 4294967296 m then 32 else 0
+  let m := Nat.shiftRight m r5
+  let r4 := bif Nat.ble 65536 m then 16 else 0
+  let m := Nat.shiftRight m r4
+  let r3 := bif Nat.ble 256 m then 8 else 0
+  let m := Nat.shiftRight m r3
+  let r2 := bif Nat.ble 16 m then 4 else 0
+  let m := Nat.shiftRight m r2
+  let r1 := bif Nat.ble 4 m then 2 else 0
+  let m := Nat.shiftRight m r1
+  let r0 := bif Nat.ble 2 m then 1 else 0
+  Nat.add (Nat.add (Nat.add (Nat.add (Nat.add (Nat.add (Nat.add r7 r6) r5) r4) r3) r2) r1) r0
 
-def ofInt (i : Int) : Nat := withSign (i < 0) (roundPack i.natAbs 0)
+/-- exponent bias of `roundPack`'s second argument (keeps all exponent arithmetic in `Nat`) -/
+def ebias : Nat := 600
+
+/-- magnitude bits of the binary32 nearest (ties to even) to `m * 2^(eb - ebias)`; overflow to
+infinity.  Requires `m < 2^256`, `eb ≥ 200`. -/
+def roundPack (m : Nat) (eb : Nat) : Nat :=
+  bif Nat.beq m 0 then 0 else
+  let E := Nat.add (ilog2 m) eb                  -- m*2^e ∈ [2^E, 2^(E+1))   (biased)
+  let q := bif Nat.blt E 474 then 451 else Nat.sub E 23   -- unit exponent of the result, ≥ -149 (biased: 451)
+  let n : Nat := bif Nat.ble q eb then Nat.shiftLeft m (Nat.sub eb q) else rne m (Nat.sub q eb)
+  let b : Nat := Nat.add (Nat.mul (Nat.sub q 451) 8388608) n   -- (be-1)·2^23 + (2^23 + frac); carries propagate
+  bif Nat.ble 2139095040 b then 2139095040 else b
+
+def ofInt (i : Int) : Nat :=
+  match i with
+  | Int.ofNat n => roundPack n ebias
+  | Int.negSucc n => withSign true (roundPack (Nat.succ n) ebias)
 
 def mul (a b : Nat) : Nat :=
-  if isNaN a || isNaN b then qNaN
+  bif isNaN a || isNaN b then qNaN
   else
-    let s := sgn a != sgn b
-    if isInf a || isInf b then
-      (if mag a == 0 || mag b == 0 then qNaN else withSign s 0x7f800000)
-    else withSign s (roundPack (sig a * sig b) ((qexp a + qexp b : Nat) - 298))
+    let s := xor (sgn a) (sgn b)
+    bif isInf a || isInf b then
+      (bif Nat.beq (mag a) 0 || Nat.beq (mag b) 0 then qNaN else withSign s 2139095040)
+    else withSign s (roundPack (Nat.mul (sig a) (sig b)) (Nat.add (Nat.add (qexp a) (qexp b)) 302))
 
 def div (a b : Nat) : Nat :=
-  if isNaN a || isNaN b then qNaN
+  bif isNaN a || isNaN b then qNaN
   else
-    let s := sgn a != sgn b
-    if isInf a then (if isInf b then qNaN else withSign s 0x7f800000)
-    else if isInf b then withSign s 0
-    else if mag b == 0 then (if mag a == 0 then qNaN else withSign s 0x7f800000)
+    let s := xor (sgn a) (sgn b)
+    bif isInf a then (bif isInf b then qNaN else withSign s 2139095040)
+    else bif isInf b then withSign s 0
+    else bif Nat.beq (mag b) 0 then (bif Nat.beq (mag a) 0 then qNaN else withSign s 2139095040)
     else
-      let num := sig a * 2^64
-      let q := num / sig b
-      let r := num % sig b
+      let num := Nat.shiftLeft (sig a) 64
+      let q := Nat.div num (sig b)
+      let r := Nat.mod num (sig b)
       -- sticky bit below everything that matters (q has ≥ 40 bits)
-      withSign s (roundPack (2 * q + (if r == 0 then 0 else 1)) ((qexp a : Int) - (qexp b : Int) - 65))
+      withSign s (roundPack (Nat.add (Nat.mul 2 q) (bif Nat.beq r 0 then 0 else 1))
+                            (Nat.sub (Nat.add (qexp a) 535) (qexp b)))
 
-/-- ordered key of a non-NaN pattern -/
-def key (b : Nat) : Int := if sgn b then - (mag b : Int) else (mag b : Int)
-def lt (a b : Nat) : Bool := !(isNaN a || isNaN b) && decide (key a < key b)
+/-- `a < b` on patterns (false if either is NaN; `-0 < +0` is false) -/
+def lt (a b : Nat) : Bool :=
+  !(isNaN a || isNaN b) &&
+  (bif sgn a then (bif sgn b then Nat.blt (mag b) (mag a) else !(Nat.beq (mag a) 0 && Nat.beq (mag b) 0))
+   else (bif sgn b then false else Nat.blt (mag a) (mag b)))
 
 /-- `roundf`: nearest integer, ties away from zero -/
 def round (b : Nat) : Nat :=
-  if expo b ≥ 150 then b          -- already an integer, or inf/NaN
+  bif Nat.ble 150 (expo b) then b          -- already an integer, or inf/NaN
   else
-    let s := 150 - expo b - (if expo b == 0 then 1 else 0)    -- value = sig / 2^s
-    withSign (sgn b) (roundPack ((sig b + 2^(s - 1)) >>> s) 0)
+    let s := Nat.sub 149 (qexp b)          -- value = sig / 2^s,  s ≥ 1
+    withSign (sgn b) (roundPack (Nat.shiftRight (Nat.add (sig b) (Nat.pow 2 (Nat.sub s 1))) s) ebias)
 
 /-- `static_cast<int>`: truncation (NaN ↦ 0, saturating) -/
 def toInt (b : Nat) : Int :=
-  if isNaN b then 0 else
-  let m : Nat := if expo b ≥ 150 then sig b <<< (expo b - 150) else sig b >>> (150 - expo b)
-  let v : Int := if sgn b then - (m : Int) else (m : Int)
-  if v > 2147483647 then 2147483647 else if v < -2147483648 then -2147483648 else v
+  bif isNaN b then 0 else
+  let m : Nat := bif Nat.ble 150 (expo b) then Nat.shiftLeft (sig b) (Nat.sub (expo b) 150)
+                 else Nat.shiftRight (sig b) (Nat.sub 150 (expo b))
+  bif sgn b then (bif Nat.ble 2147483648 m then Int.negSucc 2147483647 else Int.negOfNat m)
+  else (bif Nat.ble 2147483647 m then Int.ofNat 2147483647 else Int.ofNat m)
+
+/-! the quantise/de-quantise chains on patterns (what `qUnorm`/`uU…` unfold to at `SF`) -/
+def fmaxS (x y : Nat) : Nat := bif lt x y then y else x
+def fminS (x y : Nat) : Nat := bif lt y x then y else x
+def clampS (x lo hi : Nat) : Nat := fminS (fmaxS x lo) hi
 
 end Soft
 
@@ -670,7 +710,7 @@ def sfield (word : Nat) (off w : Nat) : Int :=
   if c ≥ 2^(w-1) then (c : Int) - 2^w else c
 
 /-- exact value of a finite binary32 pattern as `num / 2^149` (an integer numerator) -/
-def num (b : Nat) : Int := Soft.key (Soft.mag b) * 0 + (if Soft.sgn b then -1 else 1) * (Soft.sig b * 2^(Soft.qexp b) : Nat)
+def num (b : Nat) : Int := (if Soft.sgn b then -1 else 1) * ((Soft.sig b * 2^(Soft.qexp b) : Nat) : Int)
 
 /-- `f` (finite pattern) is within relative `2^-23` of `c / n` (and exact when `c = 0`):
 the unpack rule "`c / n` evaluated in binary32" with one ulp of slack -/
@@ -723,7 +763,7 @@ def smallFloatEncode (x mb : Nat) : Nat :=
   else (Soft.expo x - 112) * 2^mb + Soft.frac x / 2^(23 - mb)
 
 /-- shared-exponent decode: field `c`, exponent `w`  ↦  `c · 2^(w-24)` -/
-def f3x9Decode (c w : Nat) : Nat := Soft.roundPack c ((w : Int) - 24)
+def f3x9Decode (c w : Nat) : Nat := Soft.roundPack c (w + (Soft.ebias - 24))
 
 end Spec
 end Glm.Hand.C06
